@@ -40,10 +40,12 @@ NA_REASONS = {
 }
 
 NOT_BUILT = "simulation target per DESIGN.md §1 but its engine is not built/sound yet in this tree, so it is not claimed"
-for _p in "C14 C26 C27 C36 C37 C39 C45".split():
+for _p in "C14 C36 C37 C39 C45".split():
     NA_REASONS[_p] = NOT_BUILT
 
 ENGINE_INFO = {
+    "E7-namespace-history": {"path": "simkit/e7_ns.py", "serves_properties": ["C26", "C27"],
+                             "kind_free_text": "operation histories against per-call-site lookup/dispatch caches in several build cells vs CPython lookup"},
     "E5-fault-sweep": {"path": "simkit/e5_refs.py", "serves_properties": ["C35"],
                        "kind_free_text": "k-th-fallible-call fault sweep over compiled functions with refnanny + object conservation"},
     "E4-fault-plan": {"path": "simkit/e4_exc.py", "serves_properties": ["C22", "C44"],
@@ -61,6 +63,18 @@ ENGINE_INFO = {
 }
 
 CHECKS = {
+    "C26": {
+        "engine": "E7-namespace-history", "level": "exploration", "design_ref": "DESIGN.md §4 E7 (C26)",
+        "technique": "deterministic simulation of operation histories against per-call-site lookup caches: seeded bind/delete/re-create/shadow/grow histories over a compiled module's namespace and the builtins module, every read compared with CPython executing the same source, in 4 build cells (dict-version caches on/off x cache_builtins on/off); ddmin replay",
+        "text": "Each history mutates the module namespace through every route (compiled global assignment, setattr, module __dict__, shadowing builtin names, churning the dict so versions and layout change) and reads the names from 13 separate call sites, each of which has its own static cache in the generated C. Every value written is unique, so each read is attributable to one write; the oracle is value-or-NameError per read against the same source under CPython. The -DCYTHON_USE_DICT_VERSIONS=1 cells execute the cached lookup path that is the default before CPython 3.12. Sampling, not proof.",
+        "note": "Reads only are compared (deleting an unbound global raises a different exception type by design). Mutation of the builtins module is generated only with cache_builtins=False, as the statement says. One fixed workload module (13 readers); histories <= 10 ops + final read-all.",
+    },
+    "C27": {
+        "engine": "E7-namespace-history", "level": "exploration", "design_ref": "DESIGN.md §4 E7 (C27)",
+        "technique": "deterministic simulation of operation histories against the per-call-site override caches of cpdef dispatch: seeded add/replace/delete of overrides on any class of the MRO and on instances, interleaved with C-level and Python-level calls through shared call sites; oracle = CPython's own attribute lookup on the same object; 2 build cells; ddmin replay",
+        "text": "Extension types A > B > C with cpdef methods get Python subclasses (with and without instance dict, depth 3); histories add, replace and delete overrides on every class of the MRO including bases of the instance's type, set and delete instance attributes, and call the methods from C (two call sites, also two instances through one call site) and from Python. The C-level call must return what Python attribute lookup on the same object returns at that moment. Sampling, not proof.",
+        "note": "Known finding F7 (stale per-call-site cache in the -DCYTHON_USE_DICT_VERSIONS=1 cell, the default before CPython 3.12) is matched narrowly (C call returns a value that was valid earlier for the same type and method) and counted; the default cell and every other wrong answer are alarmed. Fixed hierarchy shape; the override implementations are Python lambdas.",
+    },
     "C35": {
         "engine": "E5-fault-sweep", "level": "fault_enumeration", "design_ref": "DESIGN.md §4 E5",
         "technique": "deterministic fault injection: for every generated function the k-th fallible special-method call is made to raise, for ALL k (complete sweep per function), plus seeded double faults; invariants checked per run by the reference-nanny built from the tree, a live-object conservation counter, argument refcounts and crash isolation",
